@@ -2,7 +2,7 @@
 // E-dmg: BOUNDED stand-in by EXHAUSTIVE ENUMERATION OF SINGLE-SITE DAMAGE over a fixed family of WAL layouts, executed natively (cargo test)
 // against the real MultiRecordLog::open on real files -- not a proof and not symbolic.  Used like E-hist (DESIGN.md 13.13): thorough tier, and
 // quick-tier fall-back when the deductive verdict is "undecided".  Public API + raw edits of the WAL files only.
-// Layouts: 38 scenarios built through the public API (policy Always(Flush), no file is garbage-collected): an entry ending / starting with
+// Layouts: 42 scenarios built through the public API (policy Always(Flush), no file is garbage-collected): an entry ending / starting with
 // k in {0,1,6,7,8,9,40} bytes left in its 32 KiB block, 1-frame, 2-frame and 3-frame entries, a 4-record batch (last record empty) whose
 // record boundary falls one byte before / exactly on / one byte after a frame boundary, delete + re-create of a queue, entries spanning a WAL
 // file boundary, truncations (legitimate head removal of a batch, truncation of an empty queue into the future).
@@ -153,7 +153,7 @@ mod verif_enum_dmg {
     }
 
     #[derive(Clone, Debug)]
-    enum Dmg { None, Payload(usize), Crc(usize), Type(u8), Len(u16), ZeroBlock, Torn(usize), CopyOf(usize, usize) } // CopyOf(file, offset): overwritten by another frame of the same length
+    enum Dmg { None, Payload(usize), Crc(usize), Type(u8), Len(u16), ZeroBlock, Torn(usize), CopyOf(u8, usize, usize) } // CopyOf(type, file, offset of the source): overwritten by a copy of another frame of the same length
 
     fn damages(f: &Frame, first_in_block: bool, all: &[Frame]) -> Vec<Dmg> {
         let mut v = Vec::new();
@@ -167,7 +167,7 @@ mod verif_enum_dmg {
         if first_in_block { v.push(Dmg::ZeroBlock); }
         let mut ts = vec![0, 3, 7, 7 + f.len / 2]; ts.dedup();
         for t in ts { v.push(Dmg::Torn(t)); }
-        for g in all.iter().filter(|g| g.len == f.len && (g.file, g.off) != (f.file, f.off)).take(2) { v.push(Dmg::CopyOf(g.file, g.off)); }
+        for g in all.iter().filter(|g| g.len == f.len && (g.file, g.off) != (f.file, f.off)).take(2) { v.push(Dmg::CopyOf(g.ty, g.file, g.off)); }
         v
     }
 
@@ -181,7 +181,7 @@ mod verif_enum_dmg {
             Dmg::Crc(j) => bytes[f.off + j] ^= 0x01,
             Dmg::Type(t) => bytes[f.off + 6] = t,
             Dmg::Len(l) => { let le = l.to_le_bytes(); bytes[f.off + 4] = le[0]; bytes[f.off + 5] = le[1]; }
-            Dmg::CopyOf(gf, goff) => {
+            Dmg::CopyOf(_, gf, goff) => {
                 let src = std::fs::read(&b.files[gf]).unwrap();
                 let n = HDR + f.len;
                 bytes[f.off..f.off + n].copy_from_slice(&src[goff..goff + n]);
@@ -312,6 +312,11 @@ mod verif_enum_dmg {
         // the entry minus one Middle frame still parses as a batch, so only the frame sequence protects its atomicity
         let mut s = pre(); s.extend([Append("a", vec![7]), Align(0), Append("a", vec![169; 600]), Append("b", vec![10]), Append("a", vec![10])]);
         v.push(("batch-of-600-whole-records-per-middle-frame".to_string(), s));
+        for (k, sz, what) in [(1000usize, 33_730usize, "two"), (1000, 66_491, "three"), (7, 32_737, "empty-first-plus-one"), (0, 32_737, "one-full")] {
+            // a multi-frame entry whose LAST frame ends exactly at a block end: entry = 24 + sz bytes, first frame takes k - 7 of them, the rest is a multiple of 32761
+            let mut s = pre(); s.extend([Append("a", vec![8]), Align(k), Append("a", vec![sz]), Append("b", vec![10]), Append("a", vec![10])]);
+            v.push((format!("{what}-frames-ending-at-the-block-end"), s));
+        }
         let mut s = pre(); s.extend([Append("a", vec![10, 20]), Delete("a"), Create("a"), Append("a", vec![30]), Append("b", vec![10]), Append("a", vec![11])]);
         v.push(("delete-recreate".to_string(), s));
         for k in [0usize, 6, 7, 500] {
